@@ -128,6 +128,7 @@ def rsa_sizes(ctx):
 
 def run(ctx):
     made_for_unsuitable(ctx)
+    private_epk(ctx)
     rsa_sizes(ctx)
     rng = ctx.rng
     jws_part(ctx)
@@ -498,6 +499,43 @@ def made_for_unsuitable(ctx):
                 if out == "ok":
                     ctx.report(f"{alg}/{enc} decryption succeeded with a {8 * n}-bit key", {"alg": alg, "enc": enc, "key": kn, "token": tok.decode()},
                                f"unsuitable-made:jwe:{alg}")
+
+
+def private_epk(ctx):
+    """A hostile producer puts the PRIVATE JWK of the ephemeral key into `epk`.  The token is otherwise what the RFC says
+    (reference-made for the recipient's public key), so whoever holds the ephemeral private key can derive the content key -
+    but decrypting still takes the recipient's private key: offered a key holding public material only, every decrypting
+    entry point fails, whatever the header brings along; the holder of the private key gets the plaintext or an error."""
+    from joserfc import jwe, jwt
+    from harness import jweref as R
+    all_names = list(jwe.JWERegistry.algorithms["alg"]) + list(jwe.JWERegistry.algorithms["enc"]) + ["DEF"]
+    for alg in ("ECDH-ES", "ECDH-ES+A128KW", "ECDH-ES+A192KW", "ECDH-ES+A256KW"):
+        for kn in ("p256", "p384", "p521", "k256", "x25519", "x448"):
+            if kn not in K._SPECS:
+                continue
+            pub_native = K.key(kn, private=True).raw_value.public_key()
+            for ser in ("compact", "flat", "general"):
+                for where in ("protected", "recipient"):
+                    if where == "recipient" and ser == "compact":
+                        continue
+                    tok = R.encrypt(alg, "A128GCM", pub_native, b'{"iss":"a"}', serialization=ser, epk_private=True,
+                                    alg_in="protected" if where == "protected" else "recipient")
+                    for private in (False, True):
+                        key = K.key(kn, private=private)
+                        calls = [("decrypt", (lambda: jwe.decrypt_compact(tok, key, algorithms=all_names).plaintext) if ser == "compact" else
+                                  (lambda: jwe.decrypt_json(copy.deepcopy(tok), key, algorithms=all_names).plaintext))]
+                        if ser == "compact":
+                            calls.append(("jwt.decode", lambda: jwt.decode(tok, key, registry=jwe.JWERegistry(algorithms=all_names)).claims))
+                        for cname, fn in calls:
+                            try:
+                                r = fn()
+                                out = "ok"
+                            except Exception as e:  # noqa: BLE001
+                                out, r = err_name(e), None
+                            ctx.count("private-epk", (alg, kn, ser, where, private, cname), True, f"{'private' if private else 'public'}:{out}")
+                            if not private and out == "ok":
+                                ctx.report(f"{cname} ({ser}, {alg}, epk in the {where} header carrying a private JWK) returned {r!r} to a key holding public material only",
+                                           {"alg": alg, "key": key.as_dict(), "token": tok.decode() if isinstance(tok, bytes) else tok}, f"private-epk:{alg}:public-key-decrypts")
 
 
 def unsafe_oct(ctx):
